@@ -50,14 +50,34 @@ Proof.
   rewrite N.eqb_refl. apply IH; try lia. intros q Hq. apply H. lia.
 Qed.
 
-Theorem ld_loop_total t : 2 * t <= length syn -> forall fuel s, t - ld_v s < fuel -> InvN syn s ->
-  exists s', ld_loop fuel syn t s = Ok s'.
+Lemma find_m_none tmp v : length tmp = v + 1 -> Forall byte tmp -> forall len a,
+  find_m syn tmp v (seq a len) = Ok None -> forall i, a <= i < a + len -> hs (SF syn) (Datatypes.S v) (vf tmp) (v + i) = F0.
 Proof.
-  intros Hs. induction fuel as [|f IH]; intros s Hf I; [lia|]. cbn [ld_loop].
-  destruct (Nat.ltb_spec (ld_v s) t) as [LT|GE]; cbn [negb]; [|eexists; reflexivity].
+  intros Lt Bt. induction len as [|len IH]; intros a H i Hi; [lia|]. cbn [seq find_m] in H.
+  destruct (slice_incl syn (v + a) (2 * v + a)) as [sl| |] eqn:E1; cbn [bind] in H; try discriminate.
+  destruct (dot sl tmp) as [sg| |] eqn:E2; cbn [bind] in H; try discriminate.
+  destruct (dot_bridge syn syn_bytes _ _ _ _ _ E1 E2 Bt) as (_ & Bs & Es). rewrite Lt in Es. replace (v + 1) with (Datatypes.S v) in Es by lia.
+  destruct (N.eqb_spec sg 0) as [Z|NZ]; [|discriminate].
+  destruct (Nat.eq_dec i a) as [->|NE]; [rewrite <- Es, Z; reflexivity|apply (IH (Datatypes.S a) H); lia].
+Qed.
+
+(* what the loop returns: a state satisfying the invariant whose polynomial [w, 1] annihilates the first t rows *)
+Definition exit_ok (t : nat) (s' : ld_state) : Prop :=
+  InvN syn s' /\ ld_v s' <= t /\
+  forall r, r < t -> hs (SF syn) (Datatypes.S (ld_v s')) (ext1 (ld_v s') (vf (ld_w s'))) r = F0.
+
+Theorem ld_loop_total t : 2 * t <= length syn -> forall fuel s, t - ld_v s < fuel -> InvN syn s -> ld_v s <= t ->
+  exists s', ld_loop fuel syn t s = Ok s' /\ exit_ok t s'.
+Proof.
+  intros Hs. induction fuel as [|f IH]; intros s Hf I Hvt; [lia|]. cbn [ld_loop].
   pose proof I as I'. destruct I' as [Hv Lw Ly Bw By I3 I4].
+  destruct (Nat.ltb_spec (ld_v s) t) as [LT|GE]; cbn [negb].
+  2:{ exists s. split; [reflexivity|]. split; [exact I|]. split; [exact Hvt|]. intros r Hr. apply ext1_annihilated; [exact I4|lia]. }
   set (v := ld_v s) in *. set (w := ld_w s) in *. set (y := ld_y s) in *.
   assert (length (w ++ [1%N]) = v + 1) as Lt by (rewrite app_length; cbn [length]; lia).
+  assert (Forall byte (w ++ [1%N])) as Bt0 by (apply Forall_snoc; [exact Bw|exact byte_1]).
+  assert (forall r, hs (SF syn) (Datatypes.S v) (vf (w ++ [1%N])) r = hs (SF syn) (Datatypes.S v) (ext1 v (vf w)) r) as Ehs0
+    by (intros r; apply hs_ext; intros j _; rewrite vf_snoc1, Lw; reflexivity).
   destruct (slice_incl_ok syn v (2 * v)) as (sl & E1 & L1); [lia|lia|]. rewrite E1. cbn [bind].
   destruct (dot_ok sl (w ++ [1%N])) as (eps & E2); [lia|]. rewrite E2. cbn [bind].
   destruct (N.eqb_spec eps 0) as [EZ|ENZ]; cbn [negb].
@@ -65,7 +85,12 @@ Proof.
     subst eps.
     destruct (find_m_ok syn (w ++ [1%N]) v (seq 1 (t - v - 1)) Lt) as (mo & E3).
     { intros i Hi. apply in_seq in Hi. lia. }
-    rewrite E3. cbn [bind]. destruct mo as [[m sg]|]; [|eexists; reflexivity].
+    rewrite E3. cbn [bind]. destruct mo as [[m sg]|].
+    2:{ exists s. split; [reflexivity|]. split; [exact I|]. split; [exact Hvt|]. intros r Hr. fold v w. rewrite <- Ehs0.
+        destruct (Nat.lt_ge_cases r v) as [RL|RG]; [rewrite Ehs0; apply ext1_annihilated; assumption|].
+        destruct (dot_bridge syn syn_bytes _ _ _ _ _ E1 E2 Bt0) as (_ & _ & E0). rewrite Lt in E0. replace (v + 1) with (Datatypes.S v) in E0 by lia.
+        destruct (Nat.eq_dec r v) as [->|NE]; [rewrite <- E0; reflexivity|].
+        replace r with (v + (r - v)) by lia. apply (find_m_none (w ++ [1%N]) v Lt Bt0 _ _ E3). lia. }
     pose proof (find_m_range _ _ _ _ _ _ E3) as Hm. apply in_seq in Hm.
     pose proof (find_m_nonzero _ _ _ _ _ _ E3) as Hsg.
     destruct (map_ok_ok (fun k => let* sl := slice_incl syn (v + k) (2 * v + k) in dot sl (w ++ [1%N])) (seq (m + 1) m)) as (srest & E4 & L4).
@@ -120,7 +145,7 @@ Proof.
       apply gamma_check_ok; try assumption; cbn [length]; try (rewrite ?Lg, ?L8, ?L4, ?seq_length; lia). }
     cbn [bind]. rewrite E10. cbn [bind].
     rewrite (debug_check_ok syn syn_bytes _ INEW) by (cbn [ld_v]; lia). cbn [bind].
-    apply IH; [cbn [ld_v]; lia|exact INEW].
+    apply IH; [cbn [ld_v]; lia|exact INEW|cbn [ld_v]; lia].
   - (* regular *)
     cbn [length]. destruct (Nat.ltb_spec (Datatypes.S (length w)) v); [lia|].
     destruct (slice_incl_ok syn (v + 1) (2 * v + 1)) as (sl1 & E3 & L3); [lia|lia|]. rewrite E3. cbn [bind].
@@ -132,7 +157,7 @@ Proof.
     pose proof (regular_step syn syn_bytes s eps b0 beta gam einv sl sl1 sl2 I E1 E2 ENZ E3 E4 E5 E6 E7 E8) as INEW.
     cbv zeta in INEW. fold v w y in INEW.
     rewrite (debug_check_ok syn syn_bytes _ INEW) by (cbn [ld_v]; lia). cbn [bind].
-    apply IH; [cbn [ld_v]; lia|exact INEW].
+    apply IH; [cbn [ld_v]; lia|exact INEW|cbn [ld_v]; lia].
 Qed.
 End Total.
 
@@ -157,7 +182,7 @@ Proof.
     [lia|rewrite Hv1; exact Hd|exact Hnz|rewrite rev_length; lia|intros i Hi; apply in_seq in Hi; lia|].
   rewrite E3. cbn [bind].
   pose proof (initial_inv syn Bs v d y0 sl w eq_refl ltac:(lia) ND E1 E2 E3) as I0.
-  destruct (ld_loop_total syn Bs t Ht (t + 2) _ ltac:(cbn [ld_v]; lia) I0) as (s' & ES). rewrite ES. cbn [bind]. exact I.
+  destruct (ld_loop_total syn Bs t Ht (t + 2) _ ltac:(cbn [ld_v]; lia) I0 ltac:(cbn [ld_v]; lia)) as (s' & ES & _). rewrite ES. cbn [bind]. exact I.
 Qed.
 
 Lemma chien_search_np c : no_panic (chien_search c).
@@ -253,4 +278,28 @@ Proof.
   - rewrite firstn_length. lia.
   - rewrite skipn_length. lia.
   - intros b Hb. apply in_seq in Hb. lia.
+Qed.
+
+(* what the locator search returns *)
+Theorem levinson_durbin_cases syn : Forall byte syn ->
+  let t := length syn / 2 in let v := take_while_zero syn + 1 in
+  (t < v /\ find_inv_error_locations_levinson_durbin syn = Err TooManyErrors) \/
+  (v <= t /\ exists s', find_inv_error_locations_levinson_durbin syn = Ok (ld_w s' ++ [1%N]) /\ exit_ok syn t s').
+Proof.
+  intros Bs t v. unfold find_inv_error_locations_levinson_durbin. fold t v.
+  assert (2 * t <= length syn) as Ht.
+  { unfold t. pose proof (Nat.div_mod (length syn) 2 ltac:(lia)). lia. }
+  destruct (Nat.ltb_spec t v) as [GT|LE]; [left; split; [exact GT|reflexivity]|]. right. split; [exact LE|].
+  destruct (take_while_zero_nth syn) as (d & Hd & Hnz); [unfold v in LE; lia|].
+  assert (v - 1 = take_while_zero syn) as Hv1 by (unfold v; lia).
+  assert (nth_ok syn (v - 1) = Ok d) as ND by (unfold nth_ok, get; rewrite Hv1, Hd; reflexivity).
+  rewrite ND. cbn [bind].
+  destruct (gdiv_ok 1%N d Hnz) as (y0 & E1). rewrite E1. cbn [bind].
+  destruct (slice_incl_ok syn v (2 * v - 1)) as (sl & E2 & L2); [lia|lia|]. rewrite E2. cbn [bind].
+  destruct (init_w_outer_ok syn v d) with (is_ := seq 0 v) (w := rev sl) as (w & E3 & L3);
+    [lia|rewrite Hv1; exact Hd|exact Hnz|rewrite rev_length; lia|intros i Hi; apply in_seq in Hi; lia|].
+  rewrite E3. cbn [bind].
+  pose proof (initial_inv syn Bs v d y0 sl w eq_refl ltac:(lia) ND E1 E2 E3) as I0.
+  destruct (ld_loop_total syn Bs t Ht (t + 2) _ ltac:(cbn [ld_v]; lia) I0 ltac:(cbn [ld_v]; lia)) as (s' & ES & EX). rewrite ES. cbn [bind].
+  exists s'. split; [reflexivity|exact EX].
 Qed.
